@@ -63,7 +63,7 @@ func (runInfo *runInfoStruct) freezeOperands(expr ast.Expr) (ast.Expr, bool) {
 			return nil, false
 		}
 		frozen := *expr
-		frozen.Item = &ast.LiteralExpr{Literal: runInfo.rv}
+		frozen.Item = &ast.LiteralExpr{Literal: frozenContainer(runInfo.rv)}
 		runInfo.expr = expr.Index
 		runInfo.invokeExpr()
 		if runInfo.err != nil {
@@ -79,7 +79,7 @@ func (runInfo *runInfoStruct) freezeOperands(expr ast.Expr) (ast.Expr, bool) {
 			return nil, false
 		}
 		frozen := *expr
-		frozen.Expr = &ast.LiteralExpr{Literal: runInfo.rv}
+		frozen.Expr = &ast.LiteralExpr{Literal: frozenContainer(runInfo.rv)}
 		return &frozen, true
 	case *ast.SliceExpr:
 		frozen := *expr
@@ -114,6 +114,24 @@ func (runInfo *runInfoStruct) freezeOperands(expr ast.Expr) (ast.Expr, bool) {
 		return &frozen, true
 	}
 	return expr, false
+}
+
+// frozenContainer is the container a frozen operand designates: a map, slice or pointer read
+// out of an interface slot is that reference itself, not a view of the slot (which the store
+// being made may overwrite: an append into shared capacity); everything else stays the
+// place it is, so that the store reaches it.
+func frozenContainer(rv reflect.Value) reflect.Value {
+	if rv.Kind() == reflect.Interface && !rv.IsNil() {
+		switch rv.Elem().Kind() {
+		case reflect.Map, reflect.Slice, reflect.Ptr:
+			return rv.Elem()
+		case reflect.Struct:
+			// a struct value held by the slot: the one read now (its fields cannot be
+			// stored through the slot anyway)
+			return detachValue(rv)
+		}
+	}
+	return rv
 }
 
 // invokeLetMemberExpr assigns a value to a member expression.
